@@ -40,7 +40,20 @@ def project(prop, op, d):
     if prop == "C08":
         return (r,) if op[0] in ("D2", "S2", "N2") else None
     if prop == "C09":
-        return (r, d.get("v"), d.get("vl"), d.get("f"), d.get("fc"), d.get("n"), d.get("emp"), s) if r == "1" else (r,)
+        if r != "1":
+            return (r,)
+        f, fc = d.get("f", "").split(","), d.get("fc", "").split(",")
+        if op[0] in ("D2", "N2", "S2"):
+            # fields of absent v2 groups are not part of what C09 states
+            emp = [e for e in d.get("emp", "").split(",") if e]
+            keep = 6 + (3 if len(emp) > 0 and emp[0] == "false" else 0)
+            f9, fc9 = f[:6], fc[:6]
+            if len(emp) > 0 and emp[0] == "false":
+                f9, fc9 = f9 + f[6:9], fc9 + fc[6:9]
+            if len(emp) > 1 and emp[1] == "false":
+                f9, fc9 = f9 + f[9:14], fc9 + fc[9:14]
+            return (r, tuple(f9), tuple(fc9), d.get("emp"), s)
+        return (r, d.get("v"), d.get("vl"), tuple(f), tuple(fc), s)
     if prop == "C10":
         return (r, _idx(d.get("enc"), L), d.get("se"), d.get("rt")) if r == "1" else (r,)
     if prop == "C11":
